@@ -123,6 +123,8 @@ def union_case(fa, cid, raw, datum, tuples, badhint):
         c["write"] = {"ok": False, "exc": proj.pexc(e)["exc"]}
         c["named"] = {"ok": False}
         c["rewrite"] = {"ok": False}
+        c["named_o"] = {"ok": False}
+        c["rewrite_o"] = {"ok": False}
         return c
     try:
         v = fa.schemaless_reader(io.BytesIO(data), raw, return_named_type=True)
@@ -136,6 +138,18 @@ def union_case(fa, cid, raw, datum, tuples, badhint):
     except Exception as e:  # noqa: BLE001
         c["named"] = {"ok": False, "exc": proj.pexc(e)["exc"]}
         c["rewrite"] = {"ok": False}
+    try:
+        v = fa.schemaless_reader(io.BytesIO(data), raw, return_named_type=True, return_named_type_override=True)
+        c["named_o"] = {"ok": True, "v": proj.pv(v)}
+        try:
+            fo3 = io.BytesIO()
+            fa.schemaless_writer(fo3, raw, v)
+            c["rewrite_o"] = {"ok": True, "bytes": list(fo3.getvalue())}
+        except Exception as e:  # noqa: BLE001
+            c["rewrite_o"] = {"ok": False, "exc": proj.pexc(e)["exc"]}
+    except Exception as e:  # noqa: BLE001
+        c["named_o"] = {"ok": False, "exc": proj.pexc(e)["exc"]}
+        c["rewrite_o"] = {"ok": False}
     return c
 
 
